@@ -572,8 +572,11 @@ fn run_c19(thorough: bool, out: &mut Out) {
     for input in &jaeger_inputs {
         out.evaluations += 1;
         cap.0.lock().unwrap().clear();
-        o.report(input.clone());
-        let got: Vec<SpanData> = cap.0.lock().unwrap().drain(..).flatten().collect();
+        if std::panic::catch_unwind(std::panic::AssertUnwindSafe(|| o.report(input.clone()))).is_err() {
+            out.violation("panic", "opentelemetry", input, "report() panicked".into());
+            continue;
+        }
+        let got: Vec<SpanData> = cap.0.lock().unwrap_or_else(|e| e.into_inner()).drain(..).flatten().collect();
         out.classes.insert(format!("otel:{}", input.len().min(4)));
         if got.len() != input.len() {
             out.violation("count", "opentelemetry", input, format!("{} SpanData for {} records", got.len(), input.len()));
@@ -610,7 +613,10 @@ fn run_c19(thorough: bool, out: &mut Out) {
                     let mut classes = BTreeSet::new();
                     for input in chunk {
                         evals += 1;
-                        rep.report(input.clone());
+                        if std::panic::catch_unwind(std::panic::AssertUnwindSafe(|| rep.report(input.clone()))).is_err() {
+                            viol.push(("panic".to_string(), input.clone(), "report() panicked".to_string()));
+                            continue;
+                        }
                         if input.is_empty() {
                             if sink.rx.try_recv().is_ok() {
                                 viol.push(("request-for-empty-batch".to_string(), input.clone(), "a request was sent for an empty batch".to_string()));
@@ -873,6 +879,7 @@ fn main() {
     let tier = args.get(2).cloned().unwrap_or_else(|| "quick".into());
     let root = std::env::var("VERIF_ROOT").unwrap_or_else(|_| "/verif".into());
     let t0 = Instant::now();
+    std::panic::set_hook(Box::new(|_| {}));
     let mut out = Out { property: prop.clone(), evaluations: 0, classes: BTreeSet::new(), violations: vec![], samples: vec![], machinery: vec![] };
     let (rule, assumptions): (&str, Vec<&str>) = if prop == "C19" {
         run_c19(tier == "thorough", &mut out);
